@@ -168,6 +168,7 @@ type envOp struct {
 	Fin   string `json:"fin,omitempty"`
 	Owner string `json:"owner,omitempty"`
 	V     string `json:"v,omitempty"`
+	TD    bool   `json:"td,omitempty"` // create: the new resource is born tearing down
 }
 
 type hChoice struct {
@@ -416,6 +417,10 @@ func runHelperCase(t *testing.T, hc hCase) (coq string, problems []string, flags
 
 					if e.Fin != "" {
 						r.Metadata().Finalizers().Add(e.Fin)
+					}
+
+					if e.TD {
+						r.Metadata().SetPhase(resource.PhaseTearingDown)
 					}
 
 					cop = fmt.Sprintf("(OpCreate %s %s)", coqRes(r, t0), coqAtom(e.Owner))
@@ -710,6 +715,8 @@ func helperMonitors(ctx context.Context, inner state.CoreState, gate *gateState,
 var envMenu = []envOp{
 	{Kind: "addfin", ID: "a", Fin: "f1"}, {Kind: "remfin", ID: "a", Fin: "f1"}, {Kind: "settd", ID: "a"},
 	{Kind: "destroy", ID: "a"}, {Kind: "create", ID: "a", V: "p9"}, {Kind: "touch", ID: "a", V: "p7"},
+	// a new incarnation that starts at version 1 again and already satisfies a phase condition
+	{Kind: "create", ID: "a", V: "p8", TD: true},
 }
 
 func c03Calls() []hCall {
